@@ -234,7 +234,8 @@ def run(ctx, res):
     order = list(range(len(fams)))
     variant_seen = set()
     for lo in range(0, len(order), chunk):
-        if time.time() - ctx['t0'] > budget and lo > 0:
+        # the first three chunks run whatever the clock says (the coverage floor of report.py must not depend on load)
+        if time.time() - ctx['t0'] > budget and lo >= 3 * chunk:
             break
         idx = order[lo:lo + chunk]
         cases = [t2.Case(dumps[i]['bash'], fams[i].queries, wordbreaks=fams[i].wordbreaks) for i in idx]
